@@ -106,9 +106,10 @@ def gen_case(rng):
             ops.append(['starmap', 'sm'])
             kind = 'int'
         elif c == 'accumulate':
-            v = rng.choice(['plain', 'start', 'returns_state', 'with_state', 'with_state_nostart', 'returns_state_with_state'])
+            v = rng.choice(['plain', 'start', 'returns_state', 'with_state', 'with_state_nostart', 'returns_state_with_state',
+                            'start_positional', 'returns_state_positional'])
             ops.append(['accumulate', v])
-            kind = 'tup' if v != 'plain' and v != 'start' else 'int'
+            kind = 'tup' if v not in ('plain', 'start', 'start_positional') else 'int'
         elif c == 'partition':
             ops.append(['partition', rng.choice([1, 2, 3])])
             kind = 'tup'
@@ -122,7 +123,8 @@ def gen_case(rng):
     # the consumer behind gather(): plain function, or a coroutine function that takes longer for smaller values (so that
     # elements overtake each other in it if gather() does not wait for it)
     return {'ops': ops, 'inputs': inputs, 'salt': rng.randrange(1 << 16), 'two_entries': two,
-            'sink': rng.choice(['sync', 'sync', 'coro', 'coro'])}
+            'sink': rng.choice(['sync', 'sync', 'coro', 'coro']),
+            'fanout': rng.choice([1, 1, 1, 2, 3])}      # how many consumers hang off the end of the segment (off gather())
 
 
 def make_sink(case, got):
@@ -157,6 +159,10 @@ def build(case, dask, sink):
                 node = node.accumulate(j_add)
             elif op[1] == 'start':
                 node = node.accumulate(j_add, start=0)
+            elif op[1] == 'start_positional':
+                node = node.accumulate(j_add, 5)                    # start given positionally, and not neutral for the function
+            elif op[1] == 'returns_state_positional':
+                node = node.accumulate(j_add_rs, 3, True)
             elif op[1] == 'returns_state':
                 node = node.accumulate(j_add_rs, start=0, returns_state=True)
             elif op[1] == 'with_state_nostart':
@@ -174,6 +180,8 @@ def build(case, dask, sink):
     if dask:
         node = node.gather()
     node.sink(sink)
+    for _ in range(case.get('fanout', 1) - 1):
+        node.sink(sink)             # further consumers on the same node: results arrive once per consumer
     return a, b
 
 
@@ -219,6 +227,10 @@ def _build_local_async(case, sink):
                 node = node.accumulate(j_add)
             elif op[1] == 'start':
                 node = node.accumulate(j_add, start=0)
+            elif op[1] == 'start_positional':
+                node = node.accumulate(j_add, 5)                    # start given positionally, and not neutral for the function
+            elif op[1] == 'returns_state_positional':
+                node = node.accumulate(j_add_rs, 3, True)
             elif op[1] == 'returns_state':
                 node = node.accumulate(j_add_rs, start=0, returns_state=True)
             elif op[1] == 'with_state_nostart':
@@ -234,6 +246,8 @@ def _build_local_async(case, sink):
         elif op[0] == 'buffer':
             node = node.buffer(op[1])
     node.sink(sink)
+    for _ in range(case.get('fanout', 1) - 1):
+        node.sink(sink)
     return a, b
 
 
